@@ -571,7 +571,25 @@ func (x *Exec) registerType(t types.Type) { typeByKeyCache[typeKey(t)] = t }
 
 func (x *Exec) contractEnv(ct *Contract, callee *ssa.Function, args []Value, st, old *State) *evalEnv {
 	env := &evalEnv{x: x, st: st, old: old, pkg: ct.Pkg.Types, vars: map[string]Value{}}
-	if callee != nil {
+	if callee != nil && len(callee.Params) == 0 && callee.Signature.Params().Len() > 0 {
+		// a function known only from export data (no body, no SSA parameters): bind by signature
+		sig := callee.Signature
+		off := 0
+		if sig.Recv() != nil {
+			off = 1
+			if len(args) > 0 {
+				env.vars["self"] = args[0]
+			}
+		}
+		for i := 0; i < sig.Params().Len() && i+off < len(args); i++ {
+			p := sig.Params().At(i)
+			if p.Name() != "" && p.Name() != "_" {
+				a := args[i+off]
+				a.T = p.Type()
+				env.vars[p.Name()] = a
+			}
+		}
+	} else if callee != nil {
 		for i, p := range callee.Params {
 			if i < len(args) {
 				a := args[i]
